@@ -15,7 +15,7 @@ import itertools
 from harness import ctxrun
 from harness import gen_ctx as GC
 from harness import gen_expr as G
-from harness.common import ImplWorker, Model, Report, rng_for
+from harness.common import ImplWorker, Model, Report, rng_for, depth
 from harness.impl import H_ann, H_opt, H_tuple, V_NONE, V_arr, V_tup
 
 
@@ -129,7 +129,7 @@ def judge(rep: Report, case: dict, im: dict, mo: dict, label: str, exact: bool) 
 
 def run(tier: str, seed: int, rep: Report, model: Model) -> dict:
     rnd = rng_for("C01", seed)
-    n = 1200 if tier == "quick" else 12000
+    n = depth(tier, 1200, 12000)
     rep.rule = ("contexts generated from a chosen assignment (1-4 parameters, tuples, optionals, return, provider; every dim form; markers; "
                 "sizes in {0,1,2,3,5,7}) kept conforming, with one perturbation, or with several; distinct = distinct (signature, values); "
                 "non-trivial = at least two annotated tensors")
@@ -158,7 +158,7 @@ def run(tier: str, seed: int, rep: Report, model: Model) -> dict:
             labels.append(("multi_fault", False))
     # directed: contexts in which a named expression meets a name that is already bound (two demands on one axis),
     # conforming and with every single-axis resize
-    for base in GC.rebound_cases(rnd, 15 if tier == "quick" else 150):
+    for base in GC.rebound_cases(rnd, depth(tier, 15, 150)):
         cases.append(base)
         labels.append(("rebound_conforming", True))
         for c in GC.all_resizes(base, alts=1):
